@@ -34,12 +34,13 @@ const (
 	C07MultiRev     // a module (or a submodule) loaded in two or three revisions; the older revisions carry augments of their own
 	C07DevGone      // an augment that collides or has a faulty body, and a deviate not-supported that removes its target afterwards
 	C07PrefixClash  // a module and its submodules bind one prefix to different modules and augment the same path string
+	C07IONames      // ordinary data nodes that are called input or output (the step names Find treats specially below an rpc)
 	C07NumShapes    // number of shapes
 )
 
 // C07ShapeNames names the shapes (Distribution keys).
 var C07ShapeNames = [...]string{"mixed", "chain-worst", "chain-random", "uses-target", "choice-case", "rpc-notif", "collision",
-	"non-container", "missing", "body-error", "submodule", "body-variety", "implicit-case(outside-claim)", "sub-noprefix", "action-no-io", "childless-grouping-node", "collision-shared-grouping", "multi-revision", "error-then-not-supported", "per-file-prefix"}
+	"non-container", "missing", "body-error", "submodule", "body-variety", "implicit-case(outside-claim)", "sub-noprefix", "action-no-io", "childless-grouping-node", "collision-shared-grouping", "multi-revision", "error-then-not-supported", "per-file-prefix", "nodes-named-input-output"}
 
 // Expectations for one augment statement.
 const (
@@ -94,6 +95,9 @@ type C07Aug struct {
 	// PrefixClash: the statement's path string is also written in another file of the same module
 	// (owner or sibling submodule) where the same prefix is bound to a different module.
 	PrefixClash bool `json:"prefixclash,omitempty"`
+	// IOName: "target" when the target is an ordinary data node (not the input/output of an rpc or
+	// action) that is called input or output, "through" when the path passes through such a node.
+	IOName string `json:"ioname,omitempty"`
 }
 
 // C07Set is a generated set plus knowledge.
@@ -105,6 +109,7 @@ type C07Set struct {
 	AugBlocks    map[string][2]int // file -> first line and number of the one-line augment statements
 	ExpectClean  bool              // every augment is expected to apply
 	OutsideClaim bool
+	IONamed      bool      // some ordinary data node of the final forest is called input or output
 	Forest       []C07Node // complete expected forest of all module trees (only when ExpectClean and inside the claim)
 	names, texts []string
 }
@@ -162,6 +167,22 @@ type c07g struct {
 	// modules with identically named top-level nodes
 	wantClash bool
 	clash     []c07bind
+	wantIO    bool
+	ioTop     map[*Module]map[string]bool // top-level names input/output taken in a module's tree
+}
+
+// ioName: a fresh name, or with probability p one of the names input / output (only for a node
+// whose parent was just created, so that no sibling has it).
+func (g *c07g) ioName(letter string, m *Module, p float64) string {
+	if g.chance(p) {
+		return g.pick([]string{"input", "output"})
+	}
+	return g.name(letter, m)
+}
+
+// c07ioNamed: an ordinary data node called input or output.
+func c07ioNamed(n *c07sn) bool {
+	return (n.name == "input" || n.name == "output") && n.kw != "input" && n.kw != "output"
 }
 
 type c07bind struct{ file, target *Module }
@@ -218,6 +239,7 @@ func GenerateC07(r *rand.Rand, shape int) *C07Set {
 	g.wantEmpty = shape == C07EmptyDir || (shape == C07Mixed && g.chance(0.35))
 	g.wantRev = shape == C07MultiRev || (shape == C07Mixed && g.chance(0.15))
 	g.wantClash = shape == C07PrefixClash || (shape == C07Mixed && g.chance(0.08))
+	g.wantIO = shape == C07IONames || (shape == C07Mixed && g.chance(0.15))
 	g.modules(shape)
 	if g.wantRev {
 		g.revisions(shape)
@@ -250,6 +272,9 @@ func GenerateC07(r *rand.Rand, shape int) *C07Set {
 		if g.wantClash {
 			g.op(C07PrefixClash)
 		}
+		if g.wantIO {
+			g.op(C07IONames)
+		}
 		if g.chance(0.08) {
 			g.op(C07DevGone)
 		}
@@ -265,9 +290,9 @@ func GenerateC07(r *rand.Rand, shape int) *C07Set {
 	case C07ChainWorst:
 		order = 0
 		g.op(shape)
-	case C07EmptyDir, C07MultiRev, C07PrefixClash:
+	case C07EmptyDir, C07MultiRev, C07PrefixClash, C07IONames:
 		n := 1 + r.Intn(2)
-		if shape == C07MultiRev {
+		if shape == C07MultiRev || shape == C07IONames {
 			n++
 		}
 		for i := 0; i < n; i++ {
@@ -458,7 +483,7 @@ func (g *c07g) feature(m *Module, f int) {
 	case 0: // container tree
 		c := b.add("container", g.name("c", m))
 		g.leaf(c, g.name("f", m))
-		c2 := c.add("container", g.name("c", m))
+		c2 := c.add("container", g.ioName("c", m, 0.06))
 		g.leaf(c2, g.name("f", m))
 		if g.chance(0.5) {
 			l := c.add("list", g.name("l", m))
@@ -470,15 +495,15 @@ func (g *c07g) feature(m *Module, f int) {
 		l := b.add("list", g.name("l", m))
 		l.add("key", "k")
 		l.add("leaf", "k").add("type", "string")
-		g.leaf(l.add("container", g.name("c", m)), g.name("f", m))
+		g.leaf(l.add("container", g.ioName("c", m, 0.06)), g.name("f", m))
 	case 2: // choice (top level or inside a container)
 		p := b
 		if g.chance(0.5) {
 			p = b.add("container", g.name("c", m))
 		}
 		ch := p.add("choice", g.name("h", m))
-		cs := ch.add("case", g.name("s", m))
-		g.leaf(cs.add("container", g.name("c", m)), g.name("f", m))
+		cs := ch.add("case", g.ioName("s", m, 0.04))
+		g.leaf(cs.add("container", g.ioName("c", m, 0.06)), g.name("f", m))
 		g.leaf(cs, g.name("f", m))
 		if g.chance(0.7) {
 			g.leaf(ch.add("container", g.name("c", m)), g.name("f", m))
@@ -550,6 +575,15 @@ func (g *c07g) bases(shape int) {
 	}
 	if g.wantEmpty {
 		g.emptyBase()
+	}
+	if g.wantIO {
+		n := 1
+		if shape == C07IONames {
+			n = 2 + g.r.Intn(2)
+		}
+		for i := 0; i < n; i++ {
+			g.ioBase(g.mods[g.r.Intn(len(g.mods))])
+		}
 	}
 	for i, t := range g.clashTargets() {
 		// identically named nodes in every one of them, so that one path string exists in each
@@ -824,6 +858,223 @@ func (g *c07g) revOp() {
 	}
 }
 
+// ioBase adds ordinary data nodes called input and output to m: at the top level (once per module
+// tree), below a container, below a list, as a case and inside a case, inside a grouping that is
+// used, inside the input of an rpc (path /r/input/input); real rpc / action input and output, written
+// and implicit, are put beside them so that both readings of the step names occur in one set.
+func (g *c07g) ioBase(m *Module) {
+	b := m.Body
+	if g.ioTop == nil {
+		g.ioTop = map[*Module]map[string]bool{}
+	}
+	own := c07owner(m)
+	if g.ioTop[own] == nil {
+		g.ioTop[own] = map[string]bool{}
+	}
+	inner := func(p *Node, name string) {
+		// container input { leaf; container queues; [container output] }
+		c := p.add("container", name)
+		g.leaf(c, g.name("f", m))
+		g.leaf(c.add("container", g.name("c", m)), g.name("f", m))
+		if g.chance(0.3) {
+			other := "output"
+			if name == "output" {
+				other = "input"
+			}
+			g.leaf(c.add("container", other), g.name("f", m))
+		}
+	}
+	done := 0
+	for _, k := range g.r.Perm(7) {
+		if done >= 2+g.r.Intn(2) {
+			break
+		}
+		done++
+		switch k {
+		case 0: // top level
+			nm := g.pick([]string{"input", "output"})
+			if g.ioTop[own][nm] {
+				done--
+				continue
+			}
+			g.ioTop[own][nm] = true
+			switch g.r.Intn(4) {
+			case 0:
+				l := b.add("list", nm)
+				l.add("key", "k")
+				l.add("leaf", "k").add("type", "string")
+				g.leaf(l.add("container", g.name("c", m)), g.name("f", m))
+			case 1:
+				ch := b.add("choice", nm)
+				cs := ch.add("case", g.pick([]string{"input", "output"}))
+				g.leaf(cs, g.name("f", m))
+				g.leaf(cs.add("container", g.name("c", m)), g.name("f", m))
+			default:
+				inner(b, nm)
+			}
+		case 1: // below a container: a container input and a leaf or container output
+			c := b.add("container", g.name("c", m))
+			inner(c, "input")
+			if g.chance(0.5) {
+				g.leaf(c, "output")
+			} else {
+				c.add("container", "output")
+			}
+		case 2: // below a list
+			l := b.add("list", g.name("l", m))
+			l.add("key", "k")
+			l.add("leaf", "k").add("type", "string")
+			l2 := l.add("list", g.pick([]string{"input", "output"}))
+			l2.add("key", "k")
+			l2.add("leaf", "k").add("type", "string")
+			g.leaf(l2.add("container", g.name("c", m)), g.name("f", m))
+		case 3: // a case called input, a container output inside another case
+			p := b
+			if g.chance(0.5) {
+				p = b.add("container", g.name("c", m))
+			}
+			ch := p.add("choice", g.name("h", m))
+			cs := ch.add("case", "input")
+			g.leaf(cs, g.name("f", m))
+			g.leaf(cs.add("container", g.name("c", m)), g.name("f", m))
+			cs2 := ch.add("case", g.name("s", m))
+			inner(cs2, "output")
+		case 4: // through a grouping
+			gr := &Node{Kw: "grouping", Arg: g.name("g", m)}
+			inner(gr, "output")
+			l := gr.add("list", "input")
+			l.add("key", "k")
+			l.add("leaf", "k").add("type", "string")
+			m.Groupings = append(m.Groupings, gr)
+			b.Kids = append(b.Kids, gr)
+			for i := 0; i < 1+g.r.Intn(2); i++ {
+				u := b.add("container", g.name("c", m)).add("uses", gr.Arg)
+				u.Uses = gr
+			}
+		case 5: // inside the input / output of an rpc, beside an rpc without input and output
+			r := b.add("rpc", g.name("r", m))
+			inner(r.add("input", ""), "input")
+			if g.chance(0.5) {
+				inner(r.add("output", ""), g.pick([]string{"input", "output"}))
+			}
+			b.add("rpc", g.name("r", m))
+		default: // an action (written or implicit input/output) beside a container input in one container
+			c := b.add("container", g.name("c", m))
+			g.rpcBody(m, c.add("action", g.name("t", m)), g.r.Intn(4))
+			inner(c, "input")
+		}
+	}
+}
+
+// ioOp: augments that aim at an ordinary node called input or output, pass through one, chain below
+// one, collide with one, create one; an rpc / action input or output is augmented in the same set.
+func (g *c07g) ioOp() {
+	name := C07ShapeNames[C07IONames]
+	at := g.cands(false, func(n *c07sn) bool { return c07augmentable(n) && c07ioNamed(n) })
+	below := g.cands(false, func(n *c07sn) bool {
+		return c07augmentable(n) && !c07ioNamed(n) && n.flagged(c07ioNamed)
+	})
+	pick := func(cs []c07cand) (c07cand, bool) {
+		if len(cs) == 0 {
+			return c07cand{}, false
+		}
+		return cs[g.r.Intn(len(cs))], true
+	}
+	w := g.writer(nil)
+	switch k := g.r.Intn(12); {
+	case k <= 2: // the node itself
+		if c, ok := pick(at); ok {
+			g.augOn(w, c, name, g.pathMode(w, c), g.body(w, false))
+		}
+	case k <= 4: // through it
+		if c, ok := pick(below); ok {
+			g.augOn(w, c, name, g.pathMode(w, c), g.body(w, false))
+		}
+	case k <= 6: // a chain below it: the second link aims at what the first grafted
+		c, ok := pick(append(at, below...))
+		if !ok {
+			return
+		}
+		a := g.augOn(w, c, name, g.pathMode(w, c), g.body(w, true))
+		nx := g.cands(false, func(n *c07sn) bool {
+			return c07augmentable(n) && n.flagged(func(x *c07sn) bool { return x.aug == a.info.ID })
+		})
+		if c2, ok := pick(nx); ok {
+			w2 := g.writer(nil)
+			g.augOn(w2, c2, name, g.pathMode(w2, c2), g.body(w2, false))
+		}
+	case k == 7: // a leaf called input / output as target: cannot have children
+		cs := g.cands(false, func(n *c07sn) bool { return c07leafish(n.kw) && c07ioNamed(n) })
+		if c, ok := pick(cs); ok {
+			a := g.newAug(w, c.mod, c.n.names(), g.pathArg(w, c.n, g.r.Intn(2)), name)
+			g.leaf(a.stmt, g.augName(w))
+		}
+	case k == 8: // a child called input where the target has an ordinary child of that name: collision
+		cs := g.cands(false, func(n *c07sn) bool {
+			if !c07augmentable(n) || n.kw == "choice" {
+				return false
+			}
+			for _, x := range n.kids {
+				if c07ioNamed(x) && x.aug < 0 {
+					return true
+				}
+			}
+			return false
+		})
+		if c, ok := pick(cs); ok {
+			// (only a child that is there from the start: when the existing child is itself grafted, which
+			// of the two augments loses depends on the order, and with it what a chain below finds)
+			dup := ""
+			for _, x := range c.n.kids {
+				if c07ioNamed(x) && x.aug < 0 {
+					dup = x.name
+				}
+			}
+			a := g.augOn(w, c, name, g.pathMode(w, c), func(a *Node, t *c07sn) {
+				g.leaf(a, g.augName(w))
+				g.leaf(a.add("container", dup), g.augName(w))
+			})
+			c.n.walk(func(x *c07sn) {
+				if x.aug == a.info.ID {
+					x.noTarget = true
+				}
+			})
+		}
+	default: // a NEW child called input / output in an ordinary container or list; a second augment aims at it
+		cs := g.cands(false, func(n *c07sn) bool {
+			return (n.kw == "container" || n.kw == "list" || n.kw == "case" || n.kw == "input" || n.kw == "output") &&
+				n.kid("input") == nil && n.kid("output") == nil
+		})
+		c, ok := pick(cs)
+		if !ok {
+			return
+		}
+		nm := g.pick([]string{"input", "output"})
+		a := g.augOn(w, c, name, g.pathMode(w, c), func(a *Node, t *c07sn) {
+			cc := a.add("container", nm)
+			g.leaf(cc, g.augName(w))
+			if g.chance(0.5) {
+				g.leaf(cc.add("container", g.augName(w)), g.augName(w))
+			}
+		})
+		nx := g.cands(false, func(n *c07sn) bool {
+			return c07augmentable(n) && n.flagged(func(x *c07sn) bool { return x.aug == a.info.ID })
+		})
+		if c2, ok := pick(nx); ok {
+			w2 := g.writer(nil)
+			g.augOn(w2, c2, name, g.pathMode(w2, c2), g.body(w2, false))
+		}
+	}
+	// and an rpc or action input / output in the same set
+	if g.chance(0.5) {
+		rio := g.cands(false, func(n *c07sn) bool { return n.kw == "input" || n.kw == "output" })
+		if c, ok := pick(rio); ok {
+			w3 := g.writer(nil)
+			g.augOn(w3, c, name, g.pathMode(w3, c), g.body(w3, false))
+		}
+	}
+}
+
 // clashTargets: the distinct modules bound to the shared prefix, the owner's first.
 func (g *c07g) clashTargets() []*Module {
 	var out []*Module
@@ -952,7 +1203,18 @@ func (g *c07g) devOp() {
 		return true
 	}
 	k := g.r.Intn(10)
-	c, found := g.anyTarget(func(n *c07sn) bool { return plain(n) && (k > 3 || len(n.kids) > 0) })
+	// (a clash with a child that is there from the start: a grafted one may have a chain below it, and
+	// then the order decides which of the two colliding augments loses and what the chain finds)
+	baseKids := func(n *c07sn) []string {
+		var out []string
+		for _, x := range n.kids {
+			if x.aug < 0 {
+				out = append(out, x.name)
+			}
+		}
+		return out
+	}
+	c, found := g.anyTarget(func(n *c07sn) bool { return plain(n) && (k > 3 || len(baseKids(n)) > 0) })
 	if !found {
 		return
 	}
@@ -978,7 +1240,8 @@ func (g *c07g) devOp() {
 	var as []*c07aug
 	switch {
 	case k <= 3: // a child name the target has already
-		dup := c.n.kids[g.r.Intn(len(c.n.kids))].name
+		bk := baseKids(c.n)
+		dup := bk[g.r.Intn(len(bk))]
 		as = append(as, g.augOn(w1, c, name, g.pathMode(w1, c), func(a *Node, t *c07sn) {
 			extra(a, w1)
 			g.leaf(a, dup)
@@ -1522,7 +1785,11 @@ func (g *c07g) item(w *Module, a *Node, t *c07sn, kind int) {
 		c := a.add("container", g.augName(w))
 		g.leaf(c, g.augName(w))
 		if g.chance(0.4) {
-			g.leaf(c.add("container", g.augName(w)), g.augName(w))
+			inner := g.augName(w)
+			if g.chance(0.08) {
+				inner = g.pick([]string{"input", "output"}) // an ordinary node with one of Find's special step names
+			}
+			g.leaf(c.add("container", inner), g.augName(w))
 		}
 	case 2:
 		l := a.add("list", g.augName(w))
@@ -1720,6 +1987,8 @@ func (g *c07g) op(shape int) {
 		g.devOp()
 	case C07PrefixClash:
 		g.clashOp()
+	case C07IONames:
+		g.ioOp()
 	case C07Collision:
 		if g.chance(0.2) {
 			g.sharedCollision()
@@ -2290,7 +2559,8 @@ func (g *c07g) evaluate(s *C07Set) {
 		}
 		a.info.UniqueNames = true
 		for _, n := range a.info.Defines {
-			if count[n] != 1 {
+			if count[n] != 1 || n == "input" || n == "output" {
+				// (the input and output of rpcs and actions carry these names too)
 				a.info.UniqueNames = false
 			}
 		}
@@ -2314,6 +2584,12 @@ func (g *c07g) evaluate(s *C07Set) {
 				continue
 			}
 			target[a.info.ID] = t
+			switch {
+			case c07ioNamed(t):
+				a.info.IOName = "target"
+			case t.flagged(c07ioNamed):
+				a.info.IOName = "through"
+			}
 			for _, e := range g.empties {
 				if t.stmt == e {
 					a.info.Childless = true
@@ -2390,6 +2666,11 @@ func (g *c07g) evaluate(s *C07Set) {
 	}
 	for _, r := range forest {
 		c07fix(r)
+		r.walk(func(x *c07sn) {
+			if c07ioNamed(x) {
+				s.IONamed = true
+			}
+		})
 	}
 	for _, a := range g.augs {
 		t := target[a.info.ID]
